@@ -46,6 +46,7 @@ type Reader struct {
 	MaxSeek        int64
 	FurthestOff    int64
 	Budget         int64 // requests beyond this panic with WorkBudgetExceeded (0 = 64*len+1MiB)
+	Exceeded       bool  // the work budget was hit (also visible when the library swallowed the panic)
 	zeroReads      int
 	failed         bool
 }
@@ -61,6 +62,7 @@ func (r *Reader) budget() {
 		b = 64*int64(len(r.data)) + 1<<20
 	}
 	if r.BytesRequested > b || r.Calls > b {
+		r.Exceeded = true
 		panic(mc.WorkBudgetExceeded{Msg: "reader work budget exceeded: unbounded reading"})
 	}
 }
